@@ -1161,3 +1161,23 @@ Module Wit.
     length orig = length alt_source /\ verdict orig alt_source = 1.
   Proof. vm_compute. repeat split; discriminate. Qed.
 End Wit.
+
+(** The same for a confidentiality block the real agent produced
+    (COSE_Encrypt0 / A128GCM, scope {0:1,-1:1}): altered destination EID
+    (CRC value left as it was), resp. one bit of the security source flipped;
+    the acceptor computes the same Enc_structure and releases the plaintext. *)
+Module WitE.
+  Definition orig : bytes := (unhex 144 0x9f890700018201692f2f6473742f7376638201662f2f7372632f820100821b000000ba43b74000001a0036ee8042a6b2850c020100583a810103018201662f2f7372632f818205a20001200181818210581f8343a10101a204486b2d67636d313238054c5477656c7665313231323132f6860101000155372c8a2b9de10126a5a175e165952c587b64ff56a042d8e0ff).
+  Definition alt_primary : bytes := (unhex 148 0x9f8907000182016d2f2f6473742f7376633f713d318201662f2f7372632f820100821b000000ba43b74000001a0036ee8042a6b2850c020100583a810103018201662f2f7372632f818205a20001200181818210581f8343a10101a204486b2d67636d313238054c5477656c7665313231323132f6860101000155372c8a2b9de10126a5a175e165952c587b64ff56a042d8e0ff).
+  Definition alt_source : bytes := (unhex 144 0x9f890700018201692f2f6473742f7376638201662f2f7372632f820100821b000000ba43b74000001a0036ee8042a6b2850c020100583a810103018201662f2f7372633f818205a20001200181818210581f8343a10101a204486b2d67636d313238054c5477656c7665313231323132f6860101000155372c8a2b9de10126a5a175e165952c587b64ff56a042d8e0ff).
+
+  Lemma primary_refuted :
+    wire_primary_raw orig <> wire_primary_raw alt_primary /\ wire_primary_raw alt_primary <> None /\
+    verdict orig alt_primary = 1.
+  Proof. vm_compute. repeat split; discriminate. Qed.
+
+  Lemma source_refuted :
+    wire_sources_raw orig <> wire_sources_raw alt_source /\ wire_sources_raw alt_source <> None /\
+    length orig = length alt_source /\ verdict orig alt_source = 1.
+  Proof. vm_compute. repeat split; discriminate. Qed.
+End WitE.
